@@ -92,6 +92,23 @@ func c16Dump(w *syntax.Word) string {
 	return sb.String()
 }
 
+// c16SingleSeq returns the sequence node of a word that is exactly one sequence.
+func c16SingleSeq(w *syntax.Word) *syntax.BraceExp {
+	if w == nil || len(w.Parts) == 0 || len(w.Parts) > 2 {
+		return nil
+	}
+	br, ok := w.Parts[0].(*syntax.BraceExp)
+	if !ok || !br.Sequence {
+		return nil
+	}
+	if len(w.Parts) == 2 {
+		if l, ok := w.Parts[1].(*syntax.Lit); !ok || l.Value != "" {
+			return nil
+		}
+	}
+	return br
+}
+
 func c16HasBrace(w *syntax.Word) bool {
 	for _, p := range w.Parts {
 		if _, ok := p.(*syntax.BraceExp); ok {
@@ -345,6 +362,7 @@ func c16Unescape(s string) string {
 
 type c16Go struct {
 	found     bool
+	untouched bool // the word still has its single original Lit
 	tree      *syntax.Word
 	hasBrace  bool
 	words     []*syntax.Word // yielded by BracesSeq (before the error, if any)
@@ -361,7 +379,9 @@ func c16RunGo(s string) c16Go {
 	var g c16Go
 	g.panicked = safely(func() {
 		w := c16Word(s)
+		lit := w.Parts[0]
 		g.found = syntax.SplitBraces(w)
+		g.untouched = len(w.Parts) == 1 && w.Parts[0] == lit
 		g.tree = w
 		g.hasBrace = c16HasBrace(w)
 		c16Walk(w, 0, &g.reg)
@@ -501,14 +521,14 @@ func c16Process(c *Ctx, it c16Item) c16Go {
 	if strings.Contains(s, "\\") {
 		tags = append(tags, "backslash")
 	}
-	if g.found && !g.hasBrace {
-		tags = append(tags, "region:reports")
+	if !g.found && strings.Contains(s, "{") {
+		tags = append(tags, "brace-char-without-braceexp")
 	}
 	if g.reg.overflow {
-		tags = append(tags, "region:overflow")
+		tags = append(tags, "seq-ends-at-int64-limit")
 	}
 	if emptyWord {
-		tags = append(tags, "region:empty-word")
+		tags = append(tags, "empty-word-in-expansion")
 	}
 	if closeNoSep {
 		tags = append(tags, "region:close-without-separator")
@@ -519,7 +539,7 @@ func c16Process(c *Ctx, it c16Item) c16Go {
 	if g.reg.bashLimits {
 		tags = append(tags, "oracle-repair:bash-arith-limits")
 	}
-	c.Case(s, g.hasBrace || (g.tree != nil && len(g.tree.Parts) > 1), tags...)
+	c.Case(s, strings.Contains(s, "{"), tags...)
 
 	if g.panicked != "" {
 		c.Op("split "+h, "panic")
@@ -580,17 +600,14 @@ func c16Process(c *Ctx, it c16Item) c16Go {
 	if rendered != s {
 		c.Fail("render "+h, fmt.Sprintf("SplitBraces changed the printed form of %q to %q", s, rendered))
 	}
-	// --- property: the bool reports whether a brace expansion was found ---
-	// Region of finding C16-reports-true-without-braceexp: the word contains `{` but the result has
-	// no BraceExp; the spec op is not emitted there (the finding is replayed from the corpus).
+	// --- property: the bool reports whether a brace expansion was found, and a word without one
+	// is left untouched (fixed finding C16-reports-true-without-braceexp) ---
+	c.Op("specreports "+h, fmt.Sprintf("%v", g.found))
 	if g.found != g.hasBrace {
-		if it.corpus == "reports" {
-			c.Fail("reports "+h, fmt.Sprintf("SplitBraces(%q) returned %v but the result contains no BraceExp (doc: \"Otherwise, the word is left untouched and the function returns false\")", s, g.found))
-		} else if !(g.found && !g.hasBrace && strings.Contains(s, "{")) {
-			c.Fail("reports "+h, fmt.Sprintf("SplitBraces(%q) returned %v, tree has BraceExp: %v", s, g.found, g.hasBrace))
-		}
-	} else {
-		c.Op("specreports "+h, fmt.Sprintf("%v", g.found))
+		c.Fail("reports "+h, fmt.Sprintf("SplitBraces(%q) returned %v, result has a BraceExp: %v (doc: \"Otherwise, the word is left untouched and the function returns false\")", s, g.found, g.hasBrace))
+	}
+	if !g.found && !g.untouched {
+		c.Fail("reports "+h, fmt.Sprintf("SplitBraces(%q) returned false but changed the word", s))
 	}
 
 	// --- property: expansion = bash's brace expansion (Lean transcription) ---
@@ -604,41 +621,33 @@ func c16Process(c *Ctx, it c16Item) c16Go {
 		}
 		specImpl = c16ShowItems(hs)
 	}
-	inBraceRegion := g.reg.overflow || closeNoSep || seqNested
+	inBraceRegion := closeNoSep || seqNested
 	if !inBraceRegion {
 		c.Op("specbraces "+h, specImpl)
 		// A range like {Z..a} produces a backslash: at the brace level Go and bash agree, but bash
 		// later takes the produced backslash for a quote character (oracle repair, not a finding).
-		if !emptyWord && !g.reg.crossBS {
+		if !g.reg.crossBS {
 			c.Op("specfields "+h, fieldsImpl)
 		}
 	}
 	// Hypothesis `seqsAgree` of bash_equiv_partial: whenever SplitBraces accepts `{…}` as one
 	// sequence, bash's expand_seqterm (Lean transcription) must read the same parameters.
-	if len(g.tree.Parts) == 2 {
-		if br, ok := g.tree.Parts[0].(*syntax.BraceExp); ok && br.Sequence {
-			if l, ok := g.tree.Parts[1].(*syntax.Lit); ok && l.Value == "" {
-				c.Op("specseqagree "+h, "true")
-			}
-		}
+	if br := c16SingleSeq(g.tree); br != nil {
+		c.Op("specseqagree "+h, "true")
 	}
 	// seq_exact / limit_iff on the implementation, with big-integer arithmetic as oracle:
 	// a word that is exactly one sequence must yield count elements (or the limit error iff
 	// count > 16384).
-	if len(g.tree.Parts) == 2 {
-		if br, ok := g.tree.Parts[0].(*syntax.BraceExp); ok && br.Sequence {
-			if l, ok := g.tree.Parts[1].(*syntax.Lit); ok && l.Value == "" {
-				inf := c16Seq(br)
-				wantLimit := inf.count.Cmp(big.NewInt(c16Limit)) > 0
-				bad := wantLimit != g.limitErr || (!wantLimit && int64(len(g.rendered)) != inf.count.Int64())
-				if bad {
-					what := fmt.Sprintf("%q has %s elements; BracesSeq: %d words, limit error=%v (Int64 overflow in `n += incr`)", s, inf.count, len(g.rendered), g.limitErr)
-					if !inf.overflow {
-						c.Fail("seq "+h, what)
-					} else if it.corpus == "overflow" {
-						c.Fail("overflow "+h, what)
-					}
-				}
+	if br := c16SingleSeq(g.tree); br != nil {
+		inf := c16Seq(br)
+		wantLimit := inf.count.Cmp(big.NewInt(c16Limit)) > 0
+		bad := wantLimit != g.limitErr || (!wantLimit && int64(len(g.rendered)) != inf.count.Int64())
+		if bad {
+			what := fmt.Sprintf("%q has %s elements; BracesSeq: %d words, limit error=%v", s, inf.count, len(g.rendered), g.limitErr)
+			if inf.overflow { // the shape of fixed finding C16-seq-int64-overflow
+				c.Fail("overflow "+h, what)
+			} else {
+				c.Fail("seq "+h, what)
 			}
 		}
 	}
@@ -685,11 +694,6 @@ func c16CompareBash(c *Ctx, it c16Item, g c16Go, bashFields []string) {
 		}
 	}
 	switch {
-	case g.reg.overflow:
-		c.Hist["bash-differs:overflow"]++
-		if it.corpus == "overflow" {
-			c.Fail("overflow "+h, what)
-		}
 	case closeNoSep:
 		c.Hist["bash-differs:close-without-separator"]++
 		if it.corpus == "bash-close" {
@@ -700,11 +704,11 @@ func c16CompareBash(c *Ctx, it c16Item, g c16Go, bashFields []string) {
 		if it.corpus == "bash-seqnested" {
 			c.Fail("bash-seqnested "+h, what)
 		}
+	case g.reg.overflow: // the shape of fixed finding C16-seq-int64-overflow
+		c.Fail("overflow "+h, what)
 	case emptyWord && g.fieldsErr == "" && c16EqStrs(nonEmpty, bashFields):
-		c.Hist["bash-differs:empty-word"]++
-		if it.corpus == "emptyfield" {
-			c.Fail("emptyfield "+h, what)
-		}
+		// the shape of fixed finding C16-empty-word-becomes-field
+		c.Fail("emptyfield "+h, what)
 	default:
 		c.Fail("bash "+h, what)
 	}
@@ -925,7 +929,7 @@ func c16Random1(r *Rand) (string, string) {
 func c16(c *Ctx) {
 	c.Rule = "one-literal words: all words up to length L over the alphabet `{ } , . \\ - 0 1 9 a z` (quick L=4, thorough L=6 sharded) + random words: " +
 		"alphabet strings of length 5..12, single sequences with endpoints near ±2^63 / zero padding / increments 0, negative, ±2^63 / letters / malformed endpoints, " +
-		"generated nested brace expressions (depth ≤ 3, escapes, empty alternatives) and their byte mutations; non-trivial = SplitBraces produced a BraceExp or split the literal; distinct by word"
+		"generated nested brace expressions (depth ≤ 3, escapes, empty alternatives) and their byte mutations; non-trivial = the word contains `{` (the stack machine of SplitBraces runs); distinct by word"
 	var items []c16Item
 	for _, l := range c.CorpusLines() {
 		f := strings.Fields(l)
